@@ -65,8 +65,10 @@ def run(ck):
     if ra.bad:
         raise MachineryError(f"the TLA+ CCM reference does not reproduce the external anchor frames {sorted(ra.bad)}")
     if ck.tier == "quick":
-        lengths = [0, 1, 2, 5, 14, 15, 16, 17, 31, 32, 33, 64, 100, 240]
-        cases = gen(rnd, 140, lengths)
+        # block boundaries of the CBC-MAC input (B0, 2 length octets, SCF, APDU: aligned at 16k - 3) and of the CTR
+        # keystream (4 MAC octets + payload: aligned at 16k - 4), both with their neighbours
+        lengths = [0, 1, 2, 5, 11, 12, 13, 14, 15, 16, 17, 27, 28, 29, 30, 31, 32, 33, 44, 45, 46, 64, 100, 237, 240]
+        cases = gen(rnd, 200, lengths)
     else:
         cases = gen(rnd, 241 * 6, list(range(241)))
     tlc.judge(ck, "secure/Ccm_Judge", cases, shards=16, timeout=3000,
